@@ -45,6 +45,12 @@ def main(argv=None):
             common.pin_environment()
             mod = importlib.import_module(f'mc.props.{prop}')
             vs = mod.replay(v)
+            if not vs and isinstance(v.get('case'), dict) and v['case'].get('worker') \
+                    and hasattr(mod, 'run_shard'):
+                # process-global library state may reach further back than the recorded recent
+                # predecessors: re-execute the whole history of the worker process
+                from mc import e1
+                vs = e1.replay_worker(mod, v)
             same = [x for x in vs if x['clause'] == v['clause']] or vs
             if same:
                 x = same[0]
